@@ -75,6 +75,42 @@ def r141(ctx, fx, cg):
         ctx.fail_closed(rid, "fewer than 3 notification handlers found (%d)" % n)
 
 
+def r146(ctx, fx):
+    rid = ctx.rule("R14.6", "request handlers only read the analysis results: no RequestHandler::handle (or a closure in it) calls a `&mut self` method of the shared "
+                   "CodegenContext that changes them (symbols_mut, remove_test_elements, register_fn, finalize); evaluation helpers are allowed only with "
+                   "track_usage = false")
+    ALLOWED_MUT = ("evaluate_expression", "evaluate_expression_as_i64", "evaluate_expression_as_string")
+    n = 0
+    for f in sorted(fx.all_fns("mos"), key=lambda f: f.path):
+        owner = f
+        while owner.kind == "closure" and owner.d.get("parent") in fx.fns:
+            owner = fx.fns[owner.d["parent"]]
+        if not (owner.d.get("impl_trait") == "mos::lsp::traits::RequestHandler" and owner.path.endswith("::handle")) and \
+                not owner.path.startswith("mos::lsp::symbols::DocSymEmitter"):
+            continue
+        cnt = 0
+        for bi, t in lib.calls(f):
+            p, fr = lib.callee(t)
+            rid_ = fr.get("rid") or fr.get("id")
+            g = fx.fns.get(rid_)
+            if g is None or g.argc < 1 or g.locals[1]["ty"] != "&mut mos_core::codegen::CodegenContext":
+                continue
+            n += 1
+            name = g.path.rsplit("::", 1)[1]
+            cnt += 1
+            key = "%s|&mut CodegenContext::%s#%d" % (owner.path, name, cnt)
+            track = lib.const_int(t["args"][2]) if name in ALLOWED_MUT and len(t["args"]) > 2 else None
+            ok = name in ALLOWED_MUT and (lib.op_const(t["args"][2]) or {}).get("disp") in ("false", "const false") or (name in ALLOWED_MUT and track == 0)
+            ctx.inst(rid, key, sample={"handler": owner.d.get("impl_self") or owner.path, "method": name, "line": t.get("line"), "allowed": bool(ok)})
+            if not ok:
+                ctx.finding(rid, key, "%s changes the shared analysis results through CodegenContext::%s while answering a request: later answers no longer describe "
+                            "the current buffers" % ((owner.d.get("impl_self") or owner.path).rsplit("::", 1)[-1], name), "%s:%s" % (f.file, t.get("line")))
+    handlers = [f for f in fx.all_fns("mos") if f.d.get("impl_trait") == "mos::lsp::traits::RequestHandler" and f.path.endswith("::handle")]
+    ctx.inst(rid, "request-handlers", sample={"handlers": len(handlers), "mut_calls": n})
+    if len(handlers) < 12:
+        ctx.fail_closed(rid, "fewer than 12 request handlers found (%d)" % len(handlers))
+
+
 def r142(ctx, fx):
     rid = ctx.rule("R14.2", "label CLIENTPOS (reads of lsp_types::Position.line/.character) must not reach str slicing (split_at, str range index), "
                    "File::source_line / line_span (assert on the line number) or a slice index; a comparison with len() does not discharge a str sink "
@@ -241,6 +277,7 @@ def run(ctx):
     fx = ctx.facts
     cg = lib.CallGraph(fx)
     r141(ctx, fx, cg)
+    r146(ctx, fx)
     r142(ctx, fx)
     r143(ctx, fx)
     r144(ctx, fx)
